@@ -57,7 +57,7 @@ def build(cfg, secret, locked=False, with_uids=True, sub_pw=None):
     spec = rs2k.Spec('iterated', 8, b'saltSALT', 0)
 
     def secbody(k):
-        if not locked:
+        if not locked or (locked == 'subs' and k == kid):
             return keypool.secret_body(k)
         pw = sub_pw if (sub_pw is not None and k != kid) else PW
         return keypool.secret_body(k, protect={'usage': 254, 'sym': 7, 'spec': spec, 'iv': bytes(range(16)), 'passphrase': pw})
@@ -103,6 +103,8 @@ def do_op(cfg, op, form, enforce, user):
     from pgpy.constants import SymmetricKeyAlgorithm
     secret = form != 'public'
     locked = form in ('locked', 'unlocked', 'failed-unlock')
+    if form == 'sub-locked':
+        locked = 'subs'       # the primary key is stored in the clear, every subkey is passphrase-protected and stays locked
     noid = form == 'noid'
     key = keypool.pgpy_key(build(cfg, secret, locked, with_uids=not noid, sub_pw='another passphrase' if form == 'failed-unlock' else None))
     key._require_usage_flags = enforce
@@ -244,6 +246,20 @@ def evaluate(c, rec):
         if outcome == 'ok':
             rec.finding('form', '%s-on-%s-key-not-refused' % (op, form), case, '')
         return
+    if form == 'sub-locked':
+        # only the primary key holds usable secret material: a locked subkey must never be the one that acts
+        rec.case(key, True, labels + ['outcome/' + outcome], dict(sample, outcome=outcome))
+        if outcome == 'ok' and op in ('sign', 'certify', 'revoke'):
+            named, acted, info = acting_component(cfg, r[1], op)
+            if named is not None and named != cfg['primary']:
+                rec.finding('form', 'locked-subkey-performs/' + op, case, 'the %s was issued in the name of the locked subkey %s' % (op, named))
+            elif named is not None and acted is None:
+                subj = ('doc', b'usage policy') if op == 'sign' else ('cert', keypool.ref_public('ed25519-2'), 'uid', b'Pool Key <pool@example.org>')
+                if not rsig.verify(info, subj, keypool.ref_public(named))[0]:
+                    rec.finding('policy', 'named-component-did-not-act/' + op, case, 'sub-locked form')
+        elif outcome == 'raised' and op in NEED and (C | cfg['uids'][user if user is not None else 0]) & NEED[op] and op != 'encrypt' and enforce:
+            rec.finding('policy', 'refused-although-the-unlocked-primary-grants/' + op, case, repr(r[1]))
+        return
     # ---- capability matrix
     if outcome == 'raised':
         nontriv = not granting
@@ -282,7 +298,7 @@ FORMS = ['public', 'private', 'locked', 'unlocked', 'noid']
 
 def sweep(cfg, rec, pick=0):
     for op in OPS:
-        for form in FORMS + (['failed-unlock'] if cfg['subs'] and op in ('sign', 'certify') else []):
+        for form in FORMS + (['failed-unlock', 'sub-locked'] if cfg['subs'] and op in ('sign', 'certify') else []):
             for enforce in (True, False):
                 users = [None] + ([1] if len(cfg['uids']) > 1 and op in ('sign', 'certify', 'encrypt') else [])
                 for user in users:
